@@ -52,6 +52,15 @@ Fixpoint find_var (x : str) (l : list var_def) : option var_def :=
   | v :: r => if str_eqb x (v_name v) then Some v else find_var x r
   end.
 
+Fixpoint nodup_names (l : list str) : bool :=
+  match l with [] => true | x :: r => negb (mem x r) && nodup_names r end.
+
+Definition has_key {A} (k : str) (l : list (str * A)) : bool :=
+  match lookup k l with Some _ => true | None => false end.
+
+Definition has_default (ad : arg_def) : bool :=
+  match a_default ad with Some _ => true | None => false end.
+
 Section Values.
   Variable s : schema.
   Variable vdefs : list var_def.
@@ -77,13 +86,44 @@ Section Values.
                         match l with [] => true | x :: r => lit_ok x it false && all r end) items
         | None => false
         end
+    | VObj flds =>
+        (* an object literal at (a list of one of) an input object type: no field twice, every field
+           defined and of its type, required fields present; OneOf: exactly one field, not null,
+           and if a variable then one allowed in a non-null position *)
+        let '(_, n) := unwrap_named t in
+        match lookup_type s n with
+        | Some (TInput defs oneof) =>
+            nodup_names (map fst flds)
+            && (fix all (l : list (str * value)) : bool :=
+                  match l with
+                  | [] => true
+                  | (k, x) :: r =>
+                    match find_arg k defs with
+                    | Some ad => lit_ok x (a_type ad) (has_default ad)
+                    | None => false
+                    end && all r
+                  end) flds
+            && forallb (fun ad => has_key (a_name ad) flds || negb (required_arg ad)) defs
+            && (negb oneof ||
+                match flds with
+                | [(k, x)] =>
+                    negb (is_vnull x) &&
+                    match x with
+                    | VVar y =>
+                        (* a OneOf field is a non-null position (spec: IsNonNullPosition) *)
+                        match find_arg k defs, find_var y vdefs with
+                        | Some ad, Some vd =>
+                            allowed_usage (v_type vd) (v_default vd) (TNonNull (a_type ad)) false
+                            && negb (mem y nulls)
+                        | _, _ => false
+                        end
+                    | _ => true
+                    end
+                | _ => false
+                end)
+        | _ => false
+        end
     | _ => match coerce_scalar_lit s v t with Some _ => true | None => false end
-    end.
-
-  Fixpoint find_arg (n : str) (l : list arg_def) : option arg_def :=
-    match l with
-    | [] => None
-    | a :: r => if str_eqb n (a_name a) then Some a else find_arg n r
     end.
 
   Definition args_ok (defs : list arg_def) (args : list (str * value)) : bool :=
@@ -91,7 +131,7 @@ Section Values.
     && forallb (fun ad =>
          match lookup (a_name ad) args with
          | None => negb (required_arg ad)
-         | Some v => lit_ok v (a_type ad) (match a_default ad with Some _ => true | None => false end)
+         | Some v => lit_ok v (a_type ad) (has_default ad)
          end) defs.
 
   (* @skip / @include take [if: Boolean!] *)
@@ -105,18 +145,27 @@ Section Values.
       else true) ds.
 End Values.
 
-(* every argument default of the schema is a valid constant of the argument's type *)
-Definition fields_defaults_ok (s : schema) (fs : list field_def) : bool :=
-  forallb (fun fd => forallb (fun ad =>
+(* every default (of an argument or an input field) is a valid constant of its type; the fields of
+   an input object have distinct names; those of a OneOf input object are nullable and have no
+   default *)
+Definition defaults_ok (s : schema) (defs : list arg_def) : bool :=
+  forallb (fun ad =>
     match a_default ad with
-    | Some lit => match coerce_lit s [] lit (a_type ad) with Some _ => true | None => false end
+    | Some lit => match coerce_const s (a_type ad) lit with Some _ => true | None => false end
     | None => true
-    end) (f_args fd)) fs.
+    end) defs.
+
+Definition fields_defaults_ok (s : schema) (fs : list field_def) : bool :=
+  forallb (fun fd => defaults_ok s (f_args fd)) fs.
 
 Definition schema_ok (s : schema) : bool :=
   forallb (fun e => match snd e with
                     | TObject fs _ => fields_defaults_ok s fs
                     | TInterface fs => fields_defaults_ok s fs
+                    | TInput defs oneof =>
+                        nodup_names (map a_name defs) && defaults_ok s defs &&
+                        (negb oneof ||
+                         forallb (fun ad => negb (is_nonnull (a_type ad)) && negb (has_default ad)) defs)
                     | _ => true
                     end) (s_types s).
 
@@ -249,9 +298,6 @@ Fixpoint sel_dirs_ok (s : schema) (vdefs : list var_def) (nulls : list str) (x :
   | SInline _ dirs sub => dirs_ok s vdefs nulls dirs && forallb (sel_dirs_ok s vdefs nulls) sub
   end.
 
-Fixpoint nodup_names (l : list str) : bool :=
-  match l with [] => true | x :: r => negb (mem x r) && nodup_names r end.
-
 Definition vars_ok (s : schema) (vdefs : list var_def) : bool :=
   nodup_names (map v_name vdefs) &&
   forallb (fun vd =>
@@ -294,9 +340,6 @@ Section Conformance.
     | Some (TObject fs _) => fs
     | _ => []
     end.
-
-  Definition has_key {A} (k : str) (l : list (str * A)) : bool :=
-    match lookup k l with Some _ => true | None => false end.
 
   (* the data graph below [d] conforms to type [t]: no null in a non-null position, leaves that
      serialise, lists for list types, objects of a possible runtime type whose (present) fields
